@@ -247,11 +247,15 @@ def rp_simw(run, E, tvs, stats):
         d = np.max(np.abs(rot_cols_mrp(x[:3]) - rm_cols(tvs, "eR")), axis=0)
     bound = K * RK4_C * th ** 5 * 1.01 + TOL
     ok = d <= bound
+    outside = np.array([c == "shadow_in" for c in cell])       # |r0| > 1: outside the derivation of the bound (informational)
+    for k in np.nonzero(~ok & outside)[0]:
+        run.spec_drift(f"simulate/rk4_flow/{op[k]}/shadow_in", "input outside the unit ball: attitude after the step further than 3 theta^5 from q*exp(omega dt)")
+    ok = ok | outside
     flag(run, ~ok, lambda k: f"simulate/rk4_flow/{op[k]}/{cell[k]}",
          "attitude after the step is not q*exp(omega dt) within the RK4 truncation bound 3 theta^5 per step", tvs,
          lambda k: {"x1": x[:, k].tolist(), "err": float(d[k]), "bound": float(bound[k]), "theta": float(th[k])})
     if np.any(ok):
-        stats["rk4_max_err_over_theta5"] = max(stats.get("rk4_max_err_over_theta5", 0.0), float(np.max((d / (K * th ** 5))[ok])))
+        stats["rk4_max_err_over_theta5"] = max(stats.get("rk4_max_err_over_theta5", 0.0), float(np.max((d / (K * th ** 5))[ok & (d <= bound)])))
         stats["rk4_max_err"] = max(stats.get("rk4_max_err", 0.0), float(np.max(d[ok])))
     flag(run, ~(nmax <= 1 + TOL), lambda k: f"simulate/norm_le_1/{cell[k]}", "returned MRP has norm > 1 (shadow switch missing)", tvs,
          lambda k: {"x1": x[:, k].tolist(), "norm": float(nmax[k])})
@@ -375,6 +379,9 @@ def selftest(run, traces, rejected):
     clean = [t for t in traces if t[0]["tid"] not in rejected and any(ln["e"] == "mag" and ln["now"] > 0 for ln in t)
              and sum(1 for ln in t if ln["e"] == "imu") >= 3 and not any(ln["e"] == "params" for ln in t)]
     if not clean:
+        if run.viol:          # every recorded run was rejected: the rejection itself is the demonstration
+            run.count("selftest_skipped_no_accepted_trace")
+            return {"skipped": "no accepted trace"}
         raise MachineryError("selftest: no accepted trace to corrupt")
     base = clean[0]
 
@@ -449,6 +456,15 @@ def node_part(run, tier, tlc_node, only=None):
         run.err(info["max_content_err"])
     if not traces:
         raise MachineryError("no Simulator run could be recorded")
+    for c in cfgs:          # informational: the absolute 1 ms slack shortens a period when dt_sim <= 1 ms (see SimulatorNode.tla, GridGap)
+        i = infos.get(c["tid"])
+        if i and not c.get("change"):
+            for name, per, st in (("imu", c["I"], i["imu_stamps"]), ("mag", c["M"], i["mag_stamps"])):
+                gaps = {b - a for a, b in zip(st, st[1:])}
+                if gaps and min(gaps) < per:
+                    run.spec_drift(f"simulator/{name}_period_shortened_by_1ms_slack",
+                                   f"dt_sim={c['S']}us, dt_{name}={per}us: consecutive {name} stamps only {min(gaps)}us apart "
+                                   "(rate limit is period - 1 ms on the dt_sim grid; model-conformant, but faster than configured)")
     val = tracecheck.validate("SimulatorNodeTrace.tla", "SimulatorNodeTrace.cfg", traces, run.workdir, shards=min(6, max(1, len(traces) // 8)))
     run.tlc.append({"name": "SimulatorNodeTrace", "states": val["states"], "distinct": val["states"], "depth": val["lines"], "wall_s": round(val["wall_s"], 2)})
     bytid = {c["tid"]: c for c in cfgs}
@@ -483,8 +499,14 @@ def main():
         w = max(2, NCPU // 2)
         f1 = ex.submit(run_tlc, "SensorModel.tla", f"SensorModel_{tier}.cfg", workdir=run.workdir, dump=True, workers=w)
         f2 = ex.submit(run_tlc, "SimulatorNode.tla", f"SimulatorNode_{tier}.cfg", workdir=run.workdir, workers=w)
-        E = build()
+        try:
+            E = build()
+        except Exception as e:      # noqa: the equations cannot even be constructed from this tree
+            E = None
+            run.violation(f"sim.eqs/raises/{type(e).__name__}", f"building the simulation equations raises: {e}", {"exception": repr(e)})
         res, resn = f1.result(), f2.result()
+    if E is None:
+        return run.finish()
     run.add_tlc("SensorModel", res)
     run.add_tlc("SimulatorNode", resn)
     m = None
